@@ -493,6 +493,10 @@ class PredEval:
         if fn == "builtins.type" and len(args) == 1:
             a = args[0]
             if isinstance(a, TypeArg):
+                if a.cls == "builtins.Ellipsis":
+                    return TypeArg("types.EllipsisType")  # `...` is an object, its class is not `type`
+                if "instance" in a.flags:
+                    return TypeArg(a.cls)
                 return TypeArg("types.GenericAlias" if a.subscripted else "builtins.type")
             return None
         if fn == "builtins.isinstance" and len(args) == 2 and isinstance(args[0], TypeArg):
@@ -725,6 +729,7 @@ def leaf_test_agreement(prog: Program, rep, rule: str):
     leaves = [
         TypeArg("typing.TypeVar", flags=frozenset({"instance"})),
         TypeArg("builtins.type", True, ("builtins.int",)),
+        TypeArg("builtins.type"),  # the bare spelling of "some class": nothing to build a routine from either
         TypeArg("collections.abc.Callable", True, ("[]", "builtins.str")),
         TypeArg("typing.Callable"),
         TypeArg("typing.Any"),
